@@ -179,8 +179,18 @@ def freshList (pre : String) (args : List E) : List E :=
 /-- the constant `alpha_…` of the homogeneity test -/
 def alpha : E := cst "alpha#"
 
+/-- two passes of re-evaluation: `expr.subs(...)` rebuilds (and thereby evaluates) the nodes above a
+    replaced argument, and `_evaluate_operators` (expr.py, added by the repair of finding
+    C08-unevaluated-operator-rejected) evaluates every operator of the result once more — on BOTH sides of
+    both comparisons.  One pass can leave `Dot(B, Grad(l) + Grad(r))` behind a factor that the
+    constructor pulled out of a sum; the second pass distributes it. -/
+def reeval2 (d : Nat) (e : E) : Except Err E :=
+  match reeval d e with
+  | .ok n => reeval d n
+  | .error x => .error x
+
 /-- `e[args ↦ vals]`, re-evaluated -/
-def substEval (d : Nat) (args vals : List E) (e : E) : Except Err E := reeval d (subst (args.zip vals) e)
+def substEval (d : Nat) (args vals : List E) (e : E) : Except Err E := reeval2 d (subst (args.zip vals) e)
 
 /-- the additivity test on one integrand -/
 def additive (d : Nat) (args : List E) (e : E) : Except Err Bool :=
